@@ -5,8 +5,9 @@ import handles as H
 import C01 as c01
 
 PROP = 'C04'
-VARIANTS = ['apply']
-REPLAYERS = {'pool.Pool._join_exited_workers': 'replayers/join_exited.py'}
+VARIANTS = ['apply', 'map', 'imap', 'imapu']
+REPLAYERS = {'pool.Pool._join_exited_workers': 'replayers/join_exited.py',
+             'pool.Pool.mark_as_worker_lost': 'replayers/kinds_lost.py', 'pool.MapResult._set': 'replayers/kinds_lost.py'}
 
 ASSUMPTIONS = [
     'worker.exitcode is what the OS reported (popen.poll: C19); a worker with exitcode None and a Popen object is alive',
@@ -41,6 +42,9 @@ def worker_is_alive(ex, args, kw):
 
 
 def build(w, variant='apply'):
+    if variant != 'apply':
+        import c04_kinds
+        return c04_kinds.build_kinds(w, variant)
     for c in c01.build(w):
         w.contracts.setdefault(c.qualname, c)
     w.classes['WorkerP'].methods.update({'join': worker_join, '_is_alive': worker_is_alive})
@@ -170,8 +174,11 @@ MANIFEST_ENTRY = {
             'the list and both registries and returns one status per reaped worker; a job gets a loss record only if it is '
             'unresolved and the worker that accepted it was reaped in this tick or is not in the pool, and every unresolved job of '
             'a reaped worker gets one (or is terminated, for terminate_job).  mark_as_worker_lost fails exactly that job, observably.',
-    'note': 'apply jobs only: for map/imap handles the ownership bookkeeping (worker_pids of finished parts, ordered imap '
-            'swallowing the loss record, ACK after reaping) is known to be defective on the pinned tree (D3, D4, D12 in DESIGN.md '
-            'section 8, natively confirmed) and is not yet under contract, so those handle kinds are NOT covered by this check; '
-            'exit status reporting by the OS and the length of a supervision period are assumed.',
+    'note': 'The tick itself (_join_exited_workers) is proved for apply handles.  For the other handle kinds the two places where '
+            'ownership and the loss record are handled are under contract (variants map / imap / imapu): MapResult._set clears the '
+            'owner of a delivered chunk (refuted on the pinned tree -- D3, a recycled worker failed the whole map -- replayed, fixed '
+            'in /repo ab695da); mark_as_worker_lost on an unordered imap queues the loss record for the consumer (proved), on an '
+            'ordered imap it does not (D4: KNOWN-FINDING with replay, not repaired: no small patch gives the iterator a position '
+            'to raise at).  D12 (ACK handled after the worker was reaped, threads=False) is not under contract.  Exit status '
+            'reporting by the OS and the length of a supervision period are assumed.',
 }
